@@ -82,7 +82,24 @@ class C14(LineCheck):
         # independent iv_inotify instances in different loop threads on the real kernel
         ok, out3 = vlib.cc_build(d, "tsan_inotify", ["tsan_inotify.c"], vlib.LIB_SRCS,
                                  san_flags=["-fsanitize=thread", "-fno-omit-frame-pointer"])
-        return ok, out + out2 + out3
+        if not ok:
+            return ok, out + out2 + out3
+        # fork handlers of iv_signal.c with two threads forking at once (real kernel, functional check of the signal masks;
+        # TSan serialises fork and does not see the reads made inside pthread_sigmask, so this one is not a TSan program)
+        ok, out4 = vlib.cc_build(os.path.join(d, "fms"), "fork_mask_smoke", ["fork_mask_smoke.c"], vlib.LIB_SRCS)
+        return ok, out + out2 + out3 + out4
+
+    def run_fork_mask(self, k):
+        import subprocess
+        import runner
+        exe = os.path.join(self.d, "fms", "fork_mask_smoke")
+        try:
+            p = subprocess.run([exe], stdout=subprocess.PIPE, stderr=subprocess.PIPE, text=True, errors="replace", timeout=120,
+                               env=dict(os.environ, **runner.ASAN_ENV))
+            out, err, rc = p.stdout.strip(), p.stderr, p.returncode
+        except subprocess.TimeoutExpired:
+            out, err, rc = "", "[timeout]", 124
+        return {"case": "FORKMASK %d" % k, "ok": rc == 0 and out.startswith("OK"), "out": out, "err": err[-600:], "rc": rc}
 
     def run_inotify(self, seed):
         import subprocess, re
@@ -225,6 +242,16 @@ class C14(LineCheck):
                 crashes.append((idx, "inotify thread program did not finish (rc=%s): %s" % (r["rc"], r["err"])))
             elif not r["skip"]:
                 nontriv.add(hashlib.sha1(r["case"].encode()).hexdigest())
+        # signal masks across concurrent forks
+        fres = [self.run_fork_mask(k) for k in range(4 if ctx.tier == "quick" else 20)]
+        self.fork_mask_runs = len(fres)
+        for r in fres:
+            cases.append(r["case"])
+            idx = len(cases) - 1
+            if not r["ok"]:
+                crashes.append((idx, "fork_mask_smoke (two threads forking at once, real kernel): %s %s (rc=%s)" % (r["out"], r["err"], r["rc"])))
+            else:
+                nontriv.add(hashlib.sha1(r["case"].encode()).hexdigest())
         for r in sres:
             cases.append(r["case"])
             idx = len(cases) - 1
@@ -234,7 +261,7 @@ class C14(LineCheck):
                 crashes.append((idx, "wait/signal stress did not finish (rc=%s): %s" % (r["rc"], r["err"])))
             else:
                 nontriv.add(hashlib.sha1(r["case"].encode()).hexdigest())
-        return {"n": len(jobs) + len(sres) + len(ires_), "div": [], "crashes": crashes, "monfail": [], "nontrivial": len(nontriv),
+        return {"n": len(jobs) + len(sres) + len(ires_) + len(fres), "div": [], "crashes": crashes, "monfail": [], "nontrivial": len(nontriv),
                 "mres": [("", None)] * len(cases), "ires": [("", None)] * len(cases), "mon": None}
 
     def describe(self, case):
@@ -273,6 +300,10 @@ class C14(LineCheck):
         if not ok:
             print(out)
             return 2
+        if case.startswith("FORKMASK "):
+            r = self.run_fork_mask(int(case.split()[1]))
+            print(r["out"], r["err"])
+            return 0 if r["ok"] else 1
         if case.startswith("INOTIFY "):
             r = self.run_inotify(int(case.split()[1]))
             print(r["races"][0] if r["races"] else "no race reported; complete=%s foreign=%s" % (r["complete"], r["foreign"]))
